@@ -50,8 +50,8 @@ def run(ctx, replay=None):
     mh = D.gen_model_factor_histories()
     traces += [D.model_factor_history(h) for h in mh]
     labels += ["model-factors:%s" % [(o[0], o[1]) for o in h] for h in mh]
-    traces += [D.nucleation_relations(), D.site_accounting(), D.limit_relations(), D.zero_driving_force_relations(), D.steady_state_relations()]
-    labels += ["nucleation-relations", "site-accounting", "limit-of-admissible-ratio", "zero-driving-force", "steady-state-function"]
+    traces += [D.nucleation_relations(), D.site_accounting(), D.limit_relations(), D.zero_driving_force_relations(), D.steady_state_relations(), D.incubation_relations(ctx.rng, ctx.tier)]
+    labels += ["nucleation-relations", "site-accounting", "limit-of-admissible-ratio", "zero-driving-force", "steady-state-function", "non-isothermal-incubation"]
     reached, r2 = T.validate("Relations", [], traces, "c14_rel")
     ctx.add_tlc(r2, "Relations over %d traces" % len(traces))
     if r2.violated or reached is None:
